@@ -42,7 +42,7 @@ Proof. vm_compute. reflexivity. Qed.
 (* ======================================================================================================
    CAMx LATERAL BOUNDARY files (Model/Lbdy.v, reader model from the translated lateral_boundary/Memmap.py)
    ====================================================================================================== *)
-From PNC Require Import Model.Lbdy Proofs.LbdyProofs.
+From PNC Require Import Model.YearEnd Model.Lbdy Proofs.LbdyProofs.
 
 (* read(write(f)): the reader model on the encoding of any well-formed lateral-boundary content presents exactly
    that content: identical boundary values for every species/edge/step, identical time-header words, grid counts
@@ -78,20 +78,19 @@ Definition C08_lbdy_witness : lbdy :=
      l_spc := [repeat 80 10]; l_edges := std_edges 2 2;
      l_steps := [([4100; hour_word 5; 4100; hour_word 6], [Quad [11; 12] [13; 14] [15; 16] [17; 18]])] |}.
 
-(* the writer's own end-date derivation (YYJJJ + 1 at midnight, as Model/Uamiv.v derive_end) loses the content at a
-   year end: re-writing the file read from a step 70365 23:00 - 71001 00:00 gives a file that decodes to a
-   different content. Witness = known finding C08-lb-enddate-year-rollover / C09-lb-enddate-year-rollover (region 1). *)
-Theorem C08_lbdy_year_end_rewrite_refuted :
-  exists l bh, lb_wf l = true /\ lb_dec (lb_enc (lb_derive l bh false)) <> Some l.
-Proof.
-  exists {| l_name := repeat 65 10; l_note := repeat 66 60; l_itzon := 0;
-            l_dates := [70365; hour_word 23; 71001; hour_word 0];
-            l_gpre := repeat 0 7; l_nx := 2; l_ny := 2; l_nz := 1; l_gpost := [0; 0; 0; 0; 0];
-            l_spc := [repeat 80 10]; l_edges := std_edges 2 2;
-            l_steps := [([70365; hour_word 23; 71001; hour_word 0], [Quad [11; 12] [13; 14] [15; 16] [17; 18]])] |}, [23].
-  split; [vm_compute; reflexivity|]. vm_compute. discriminate.
-Qed.
-Print Assumptions C08_lbdy_year_end_rewrite_refuted.
+(* the writer's own end-date derivation at a year end (as repaired by a9b6e29): a file read from a step
+   70365 23:00 - 71001 00:00 and written again decodes to the same content (before the repair the end date came out as
+   70366: former finding C08/C09-lb-enddate-year-rollover, now a corpus case) *)
+Definition C08_lbdy_year_end_witness : lbdy :=
+  {| l_name := repeat 65 10; l_note := repeat 66 60; l_itzon := 0;
+     l_dates := [70365; hour_word 23; 71001; hour_word 0];
+     l_gpre := repeat 0 7; l_nx := 2; l_ny := 2; l_nz := 1; l_gpost := [0; 0; 0; 0; 0];
+     l_spc := [repeat 80 10]; l_edges := std_edges 2 2;
+     l_steps := [([70365; hour_word 23; 71001; hour_word 0], [Quad [11; 12] [13; 14] [15; 16] [17; 18]])] |}.
+Example C08_lbdy_year_end_rewrite :
+  lb_wf C08_lbdy_year_end_witness = true /\
+  lb_dec (lb_enc (lb_derive C08_lbdy_year_end_witness [23] false)) = Some C08_lbdy_year_end_witness.
+Proof. vm_compute. split; reflexivity. Qed.
 
 Example C08_lbdy_hyp_inhabited :
   lb_wf C08_lbdy_witness = true /\ l_steps C08_lbdy_witness <> [] /\
@@ -149,3 +148,29 @@ Theorem C08_heightpres_rewrite_idempotent : forall c, h_wf c = true ->
   match h_dec (h_nx c) (h_ny c) (h_nz c) (h_enc c) with Some c' => h_enc c' = h_enc c | None => False end.
 Proof. exact h_rewrite_idempotent. Qed.
 Print Assumptions C08_heightpres_rewrite_idempotent.
+
+(* ======================================================================================================
+   The writers' end-date derivation (uamiv without ETFLAG, lateral_boundary always), Model/YearEnd.v,
+   as repaired by 4389526 and a9b6e29
+   ====================================================================================================== *)
+From PNC Require Import Model.YearEnd Proofs.YearEndProofs.
+
+(* the derived end date/hour (day-of-year carry into the next two-digit year) IS the specification at every valid date and
+   hour, year ends and leap years included *)
+Theorem C08_end_date_is_spec : forall bd bh, valid_yyjjj bd = true -> 0 <= bh <= 23 ->
+  derive_end_r bd bh = spec_end bd bh.
+Proof. exact derive_end_r_is_spec. Qed.
+Print Assumptions C08_end_date_is_spec.
+
+(* ... so a time header consistent with its begin hour is reproduced word for word by the writers *)
+Theorem C08_end_date_reproduces_header : forall bd b bh, valid_yyjjj bd = true -> 0 <= bh <= 23 ->
+  let e := spec_end bd bh in
+  let th := [bd; b; fst e; hour_word (snd e)] in
+  derive_th_r th bh = th.
+Proof. exact derive_th_r_fixpoint. Qed.
+Print Assumptions C08_end_date_reproduces_header.
+
+Example C08_year_end_inhabited :
+  valid_yyjjj 99365 = true /\ derive_end_r 99365 23 = (1, 0) /\ derive_end_r 4366 23 = (5001, 0) /\
+  derive_end_r 4059 23 = (4060, 0) /\ derive_end_r 99365 22 = (99365, 23).
+Proof. vm_compute. repeat split; reflexivity. Qed.
